@@ -314,13 +314,30 @@ class Exec:
             if r != z3.sat: break
             x = s.solver.model().eval(v, model_completion=True).as_long(); vals.append(x); s.solver.add(v != x)
             if len(vals) > s.B['fanout']:
-                s.solver.pop(); raise BoundExceeded('fan-out bound exceeded resolving symbolic %s' % what)
+                s.solver.pop()
+                if what in ('address', 'function pointer', 'vptr') and s._depends_on_uninit(v):
+                    raise Violation('memory', 'an %s read from storage that was never initialised is used' % what)
+                raise BoundExceeded('fan-out bound exceeded resolving symbolic %s' % what)
         s.solver.pop(); s.solver_time += time.time() - t
         if not vals: raise PathEnd('infeasible')
         vals.sort()
         for x in reversed(vals[1:]):
             s.save.append(s.snapshot(x))
         s._note_dec(); s.dec.append(vals[0]); s.add(v == vals[0]); return vals[0]
+
+    def _depends_on_uninit(s, e):
+        """does the term mention a variable that stands for never-initialised memory?"""
+        seen = set(); todo = [e]; n = 0
+        while todo and n < 20000:
+            x = todo.pop(); n += 1
+            i = x.get_id()
+            if i in seen: continue
+            seen.add(i)
+            if z3.is_const(x) and x.decl().kind() == z3.Z3_OP_UNINTERPRETED:
+                if x.decl().name().startswith('uninit'): return True
+                continue
+            todo.extend(x.children())
+        return False
 
     # ------------------------------------------------------------ values
     def binop(s, op, n, a, b):
